@@ -319,7 +319,7 @@ class TreeRoutingTable:
         bucket = self.buckets[bucket_index_to_pop]
         if can_go_lower and can_go_higher:
             midpoint = ((bucket.range_max - bucket.range_min) // 2) + bucket.range_min
-            self.buckets[bucket_index_to_pop - 1].range_max = midpoint - 1
+            self.buckets[bucket_index_to_pop - 1].range_max = midpoint
             self.buckets[bucket_index_to_pop + 1].range_min = midpoint
         elif can_go_lower:
             self.buckets[bucket_index_to_pop - 1].range_max = bucket.range_max
